@@ -165,11 +165,11 @@ def cli_sweep(r, n_inputs):
             desc = mc.score_type.long_description()
             kind = {"p": "Perc", "m": "MaxQuant", "f": "FragPipe", "s": "Sage", "d": "DIA-NN"}[mc.score_type.score_origin.short_description()]
             rem = mc.score_type.remaps_peptides_to_proteins() or mc.grouping_strategy.needs_peptide_to_protein_map()
-            jobs.append((m, kind, rem, files, d, k))
+            jobs.append((m, kind, rem, files, d, k, mc.score_type.can_do_quantification()))
     stats = {"completed": 0, "refused_without_fasta": 0, "skipped_wrong_input": 0}
 
     def one(job):
-        m, kind, rem, files, d, k = job
+        m, kind, rem, files, d, k, can_quant = job
         res = []
         out = os.path.join(d, f"out_{m}.txt")
         args = [FLAG[kind], files[kind], "--methods", m, "--protein_groups_out", out]
@@ -195,6 +195,14 @@ def cli_sweep(r, n_inputs):
             if a != b:
                 res.append(("fail", m, f"the table changes when the modifications of the same PSMs are spelled out ({kind} input): "
                                       f"{len(a.splitlines())} lines versus {None if b is None else len(b.splitlines())} (exit {rc}: {err[-200:]})"))
+        if k == 0 and os.path.exists(out) and not can_quant:
+            # --do_quant with a method whose input carries no quantities: quantification is skipped, the table is the same
+            outq = os.path.join(d, f"out_doquant_{m}.txt")
+            rc, err = run_cli([FLAG[kind], files[kind], "--methods", m, "--protein_groups_out", outq, "--do_quant"] +
+                              (["--fasta", files["fasta"]] if rem else []), env)
+            b = open(outq, "rb").read() if os.path.exists(outq) else None
+            if rc != 0 or b != open(out, "rb").read():
+                res.append(("fail", m, f"--do_quant with {kind} input (no quantities): expected the table of the run without it, got exit {rc}: {err[-300:]}"))
         if k == 0 and os.path.exists(out) and all(os.path.getsize(f) > 0 for f in files["split"][kind]):
             outs_ = os.path.join(d, f"out_split_{m}.txt")
             rc, err = run_cli([FLAG[kind]] + files["split"][kind] + ["--methods", m, "--protein_groups_out", outs_] +
